@@ -41,6 +41,14 @@ type GBatchSc struct {
 	Pre int `json:"pre,omitempty"`
 	// Procs > 0: run with GOMAXPROCS(Procs) (the limit must be usable also when it exceeds the number of CPUs)
 	Procs int `json:"procs,omitempty"`
+	// harness-only hints (ignored by the Lean side): how the node is built, how the exec function is installed, and —
+	// for Pre > 0 — with which budget / error mode the warm-up run is made and through which kind of setter the real
+	// configuration is then written ("builder" methods or option functions applied to the node's BaseNode)
+	Build     string `json:"build,omitempty"`
+	ExecVia   string `json:"execVia,omitempty"`
+	PreBudget int    `json:"preBudget,omitempty"`
+	PreStop   bool   `json:"preStop,omitempty"`
+	PreVia    string `json:"preVia,omitempty"`
 }
 
 type GBatchObs struct {
@@ -156,7 +164,10 @@ func execGBatch(sc *GBatchSc, choose chooser) (GBatchObs, []string) {
 		return GBatchObs{Phases: [][][2]int{}, Items: "-", Slots: "-", Out: "H"}, []string{"bad:skipped-after-hangs"}
 	}
 	cfg := BatchCfg{Budget: sc.Budget, Fb: sc.Fb, Conc: sc.Conc, Stop: sc.Stop, ExecS: sc.ExecS, HasPost: true,
-		Shape: "results", Build: "builder"}
+		Shape: "results", Build: "builder", ExecVia: sc.ExecVia}
+	if sc.Build == "option" {
+		cfg.Build = "option"
+	}
 	bs := BatchScript{N: 0, V: 0, Prep: sc.Prep, Post: "="}
 	for _, it := range sc.Items {
 		bs.Items = append(bs.Items, ItemScript{Exec: it.Exec, Fb: it.Fb, WaitCancel: []int{}})
@@ -183,8 +194,23 @@ func execGBatch(sc *GBatchSc, choose chooser) (GBatchObs, []string) {
 			}
 		}
 		node.WithBatchConcurrency(sc.Pre)
+		if sc.PreBudget > 0 {
+			node.WithMaxRetries(sc.PreBudget)
+		}
+		if sc.PreVia != "" {
+			node.WithBatchErrorHandling(!sc.PreStop)
+		}
 		e.runOnce(0)
-		node.WithBatchConcurrency(sc.Conc)
+		if sc.PreVia == "option" {
+			// the same settings written through the option functions, applied to the node's BaseNode
+			flyt.WithBatchConcurrency(sc.Conc)(node.BaseNode)
+			flyt.WithMaxRetries(sc.Budget)(node.BaseNode)
+			flyt.WithBatchErrorHandling(!sc.Stop)(node.BaseNode)
+		} else {
+			node.WithBatchConcurrency(sc.Conc)
+			node.WithMaxRetries(sc.Budget)
+			node.WithBatchErrorHandling(!sc.Stop)
+		}
 		// fresh per-run bookkeeping for the gated run
 		b.mu.Lock()
 		b.attempts = map[[2]int]int{}
@@ -513,11 +539,18 @@ func genGBatch(r *rng, thorough bool, shard, shards int, jl *jobList) {
 		t.next, t.errN = r.intn(30), r.intn(20)
 		fbk := r.pick([]string{"pass", "pass", "custom"})
 		rr := newRng(r.next())
-		prep, items := gItems(t, n, budget, mask, r.chance(50), func(i int) bool { return rr.chance(50) }, r.pick([]string{"res", "any"}))
-		base := GBatchSc{N: n, Conc: c, Stop: r.chance(50), Budget: budget, Fb: fbk, ExecS: "res", Kind: r.pick([]string{"canceled", "deadline"}), Prep: prep, Items: items}
+		es := r.pick([]string{"res", "res", "any"})
+		prep, items := gItems(t, n, budget, mask, r.chance(50), func(i int) bool { return rr.chance(50) }, es)
+		base := GBatchSc{N: n, Conc: c, Stop: r.chance(50), Budget: budget, Fb: fbk, ExecS: es, Kind: r.pick([]string{"canceled", "deadline", "cause", "fardeadline"}), Prep: prep, Items: items,
+			Build: r.pick([]string{"builder", "option"}), ExecVia: r.pick([]string{"", "", "copt", "cbuilder"})}
 		switch it % 5 {
-		case 1: // the node has been run before with a different concurrency
+		case 1, 3: // the node has been run before with a different concurrency (and budget / error mode), then re-configured
 			base.Pre = 1 + r.intn(6)
+			if it%5 == 3 {
+				base.PreBudget = 1 + r.intn(3)
+				base.PreStop = r.chance(50)
+				base.PreVia = r.pick([]string{"builder", "option"})
+			}
 		case 2: // fewer CPUs than workers
 			base.Procs = 1 + r.intn(2)
 		}
